@@ -57,7 +57,7 @@ CLAIMS['C03'] = {
     'text': 'Reader.tla models packet-buffer creation, auto-detection (peek / rewind / resync) and per-packet reads against short-read schedules; TLC '
             'proves EndsInBoundedCalls and EOFAbsorbing for the ideal and exhibits the never-ending behaviour of the historical size-0 buffer. Real '
             'runs: model-guided mutations of well-formed streams (every declared length field x {0,1,true-1,true+1,max}, truncations, corruption, '
-            'garbage, empty) x packet size {auto,188,192,204,189} x four reader kinds x {NextPacket, NextData}; Mon_C03 requires no panic, monotone '
+            'garbage, empty, units of 12..400 contiguous packets) x packet size {auto,188,192,204,189} x four reader kinds x {NextPacket, NextData}; Mon_C03 requires no panic, monotone '
             'consumption, ErrNoMorePackets within |input|+2 calls and absorbing. TLA+ does not predict panics: absence is asserted on the inputs run. '
             'Reader.tla is bound to the code: every NextPacket call of 4 620 (quick) reader configurations must be a result Reader!Call allows '
             '(Mon_Reader).',
@@ -66,32 +66,35 @@ CLAIMS['C07'] = {
     'text': 'Merge.tla enumerates every order-preserving merge of the per-PID packet sequences (TLC, by packet-count vector); for each stream the real '
             'Demuxer is run on the base order (three times), on the TLC-enumerated merges (all, or a seeded sample above a budget), with a '
             'null/adaptation-only/transport-error packet inserted at every position, and with one corruption per PID; Mon_C07 requires every PID\'s '
-            'delivered sequence (digest of the whole DemuxerData) to equal the base run\'s, except on the corrupted PID.',
+            'delivered sequence (digest of the whole DemuxerData) to equal the base run\'s, except on the corrupted PID; a PID whose own sequence '
+            'holds an exact copy of a table-completing packet delivers the same whether the copy is adjacent or behind a foreign packet.',
     'note': TRUST, 'technique': 'TLA+ enumeration of schedules (TLC) + trace validation of real-code runs (Mon_C07)', 'ref': 'DESIGN.md 4 C07'}
 CLAIMS['C08'] = {
     'text': 'Reader.tla (short-read schedules x reader kinds x auto/explicit) model-checked for SameAsFull; counterexample for single-Read peek. Real '
             'runs: each stream through ~190 (quick) / ~3000 (thorough) configurations of reader kind x schedule x explicit/auto x frame size 188..250, '
             'via NextPacket and NextData; Mon_C08 requires equality with the reference run within the classes the statement defines. Reader.tla is '
-            'bound to the code: every NextPacket call of 4 620 (quick) configurations must be a result Reader!Call allows (Mon_Reader).',
+            'bound to the code: every NextPacket call of 4 620 (quick) configurations must be a result Reader!Call allows (Mon_Reader). '
+            'bufio.Readers smaller than a packet are among the readers of the explicit-size configurations.',
     'note': TRUST, 'technique': 'TLA+ model checking (TLC) + configuration enumeration judged by trace validation (Mon_C08, Mon_Reader)', 'ref': 'DESIGN.md 4 C08, 13.7'}
 CLAIMS['C19'] = {
     'text': 'For streams generated from Demux.tla and the seeded reference multiplexer, and nine predicate families, the real Demuxer is run with the '
             'skipper, on the filtered stream, with an observing and with a replacing PacketsParser; Mon_C19 requires: callback sequence = stream '
             'packets (once, in order, header/AF parsed), packets and data equal to the filtered stream\'s, observer leaves output unchanged and is '
-            'handed each unit once per PID (non-empty, single PID, arrival order), replacing parser\'s data delivered exactly.',
+            'handed each unit once per PID (non-empty, single PID, arrival order), replacing parser\'s data (one or two per unit, with and without first packet) delivered exactly, with the content they had when returned.',
     'note': TRUST, 'technique': 'TLA+-generated scenarios + trace validation of real-code runs (Mon_C19)', 'ref': 'DESIGN.md 4 C19'}
 CLAIMS['C20'] = {
     'text': 'For streams generated from Demux.tla and the seeded reference multiplexer x {explicit, auto}: every number k of NextData calls before '
             'Rewind, NextPacket counts, mixed and repeated rewinds on the real Demuxer; Mon_C20 requires Rewind = (0, nil) and the post-rewind '
             'deliveries to equal a fresh Demuxer\'s. Demux.tla models Rewind (pool and data buffer replaced, program map kept): C20_RewindFresh is '
-            'model-checked for every consumption point, with counterexamples for a kept data buffer and for PMTs preceding their PAT.',
+            'model-checked for every consumption point, with counterexamples for a kept data buffer and for PMTs preceding their PAT; on a reader that '
+            'cannot seek the absence of residue is checked against a fresh Demuxer over the rest of the input (C20_NoSeekClean).',
     'note': TRUST, 'technique': 'TLA+ model checking (TLC) + TLA+-generated scenarios + exhaustive call-count enumeration judged by trace validation (Mon_C20)', 'ref': 'DESIGN.md 4 C20, 13.7'}
 CODEC_NOTE = TRUST + ' Numeric ranges are covered structurally (0, max, every single-bit value, flag subsets, boundary lengths, seeded random), not exhaustively (DESIGN.md 6).'
 CLAIMS['C09'] = {
     'text': 'Every single-bit flip (exhaustive per unit), byte substitutions, bursts <= 32 bits, truncations and extensions of seeded units of all six '
             'table kinds are demuxed by the real Demuxer; Mon_C09 recomputes the outcome with an independent TLA+ reference decoder (pointer_field, '
             'table_id, section_length, bitwise CRC-32/MPEG-2) and requires: never an altered table, all tables when the reference accepts the whole '
-            'unit. Every PAT/PMT payload the real Muxer emits (descriptors of all kinds, struct Length correct/0/wrong) must hold exactly one '
+            'unit; every second bit flip is also sent as a damaged repetition behind the clean unit through the same Demuxer. Every PAT/PMT payload the real Muxer emits (descriptors of all kinds, struct Length correct/0/wrong) must hold exactly one '
             'section the reference decoder accepts.',
     'note': CODEC_NOTE, 'technique': 'TLA+ reference decoder evaluated by TLC over fault-enumerated real-code traces (Mon_C09)', 'ref': 'DESIGN.md 4 C09'}
 CLAIMS['C10'] = {
@@ -107,7 +110,8 @@ CLAIMS['C11'] = {
 CLAIMS['C12'] = {
     'text': 'PESEncode.tla is the reference layout of PES headers (PTS/DTS/ESCR/ES rate/trick mode/copy info/CRC/extension fields, stuffing, length '
             'rule) and the exact Duration arithmetic; Mon_C12 requires writer bytes = Encode(value), parser on reference bytes (writer-confirmed or '
-            'twin-built and TLC-re-derived) = value, payload boundaries per PES_packet_length, trick-mode decode for all 256 bytes, Duration() exact.',
+            'twin-built and TLC-re-derived) = value, payload boundaries per PES_packet_length, trick-mode decode for all 256 bytes, Duration() and Time() exact; units written through one Muxer '
+            '(given / automatic stream ids, payloads of 1 byte .. 48 KB, bounded and unbounded) come back from one Demuxer header for header and byte for byte.',
     'note': CODEC_NOTE, 'technique': 'TLA+ reference encoding evaluated by TLC over real-code parse/write traces (Mon_C12)', 'ref': 'DESIGN.md 4 C12'}
 CLAIMS['C13'] = {
     'text': 'PSI.tla encodes PAT/PMT/SDT/NIT/EIT/TOT sections (header, syntax header, loops, descriptor loops, CRC) and is anchored by the ISO sample '
@@ -122,14 +126,16 @@ CLAIMS['C14'] = {
 CLAIMS['C15'] = {
     'text': 'DVBTime.tla writes the Annex C formulas in integer arithmetic and DVBWalk.tla checks them against a calendar walk for all 50 457 days '
             '(TLC); Mon_C15 compares the real decoder on every day x 3 times, (every 5th / every) second of the day on 7 days, the real encoder on '
-            'days and seconds, all hh:mm and (every 13th / all) hh:mm:ss BCD durations and raw patterns with those definitions.',
+            'days and seconds, all hh:mm and (every 13th / all) hh:mm:ss BCD durations and raw patterns with those definitions; the edge days are also '
+            'decoded where a stream carries them (EIT start_time, TOT UTC_time) through the section parser.',
     'note': CODEC_NOTE, 'technique': 'TLA+ calendar model checked by TLC + definitions evaluated over real-code traces (Mon_C15)', 'ref': 'DESIGN.md 4 C15'}
 CLAIMS['C16'] = {
     'text': 'Pool.tla models the process-wide bytesPool shared by 3 concurrent instances (read buffer, get / fill / extract / put / return): TLC proves '
             'single holder, release before return and that no returned result shares memory with a pool item or read buffer (3.4 M states; '
             'counterexample for a non-copying extract). Real runs: every returned Packet/DemuxerData is re-digested after later calls and at the end, '
             'its byte ranges are compared with the pool items of the call and the read buffer (verif pool observer), Muxer payload digests, and 2..64 '
-            'concurrent workers are compared with their solo results under the Go race detector; Mon_C16 judges all of it.',
+            'concurrent workers are compared with their solo results under the Go race detector, instances used in turn (among them one whose units '
+            'have no payload, right behind PES users of the pool) deliver what they deliver alone; Mon_C16 judges all of it.',
     'note': TRUST + ' The clause "without data races" is observed by the Go race detector (a runtime observer) whose report count the monitor judges.',
     'technique': 'TLA+ model checking (TLC) + trace validation of real-code aliasing/concurrency traces (Mon_C16)', 'ref': 'DESIGN.md 4 C16'}
 NOT_CLAIMED = {}
